@@ -614,7 +614,7 @@ func c04Generate(t *testing.T, out *vout, blockCells bool) {
 				in.Prims = append(in.Prims, c04Prim(sg, append(append([]byte{}, rl...), tk...)))
 			}
 		}
-		if blockCells && (level != "caller" || tag != "matrix") {
+		if blockCells && (level != "caller" || (tag != "matrix" && tag != "ed25519-identity-bad-signature")) {
 			return
 		}
 		out.emitAs("C04", in, c04Run(t, in, w, ed))
@@ -654,13 +654,21 @@ func c04Generate(t *testing.T, out *vout, blockCells bool) {
 			return c04Frame{T: "resp", Observed: hx(ownAddr), Role: hx([]byte("provider" + own))}
 		case "short-addr":
 			return c04Frame{T: "resp", Observed: hx(ownAddr[:19]), Role: hx([]byte(own))}
+		case "padded32-addr": // the address as an ABI word
+			return c04Frame{T: "resp", Observed: hx(append(make([]byte, 12), ownAddr...)), Role: hx([]byte(own))}
+		case "junk-then-addr":
+			return c04Frame{T: "resp", Observed: hx(append([]byte{0x7f}, ownAddr...)), Role: hx([]byte(own))}
+		case "stranger-then-addr":
+			return c04Frame{T: "resp", Observed: hx(append(append([]byte{}, remAddr...), ownAddr...)), Role: hx([]byte(own))}
+		case "addr-then-junk":
+			return c04Frame{T: "resp", Observed: hx(append(append([]byte{}, ownAddr...), 0)), Role: hx([]byte(own))}
 		case "empty":
 			return c04Frame{T: "resp"}
 		}
 		return c04Frame{T: "bad", Bad: class}
 	}
 	sigClasses := []string{"valid", "foreign", "other-message", "flipped", "short", "long", "empty", "v27"}
-	echoes := []string{"right", "wrong-addr", "wrong-role", "short-addr", "empty", "eof", "garbage", "errframe", "emptyframe"}
+	echoes := []string{"right", "wrong-addr", "wrong-role", "short-addr", "padded32-addr", "junk-then-addr", "stranger-then-addr", "addr-then-junk", "empty", "eof", "garbage", "errframe", "emptyframe"}
 	for _, level := range []string{"service", "caller"} {
 		for _, inbound := range []bool{true, false} {
 			for _, lr := range localRoles {
@@ -685,6 +693,35 @@ func c04Generate(t *testing.T, out *vout, blockCells bool) {
 							}
 						}
 					}
+				}
+			}
+		}
+	}
+	// a genuine handshake first; then the same peer presents the same signature again and claims
+	// another role (or another token) with it
+	for _, level := range []string{"service", "caller"} {
+		for _, inbound := range []bool{true, false} {
+			for _, lr := range localRoles {
+				for _, claim := range [][2]string{{"provider", "tok"}, {"bootnode", "tok"}, {"bidder", "tok2"}, {"bidder", "tok"}} {
+					genuine := reqFrame("bidder", "tok", "valid")
+					rq := c04Frame{T: "req", Role: hx([]byte(claim[0])), Token: hx([]byte(claim[1])), Sig: genuine.Sig}
+					remote := []c04Frame{rq, echo(lr, "right")}
+					if !inbound {
+						remote = []c04Frame{echo(lr, "right"), rq}
+					}
+					ownRole := p2p.PeerType(lr).String()
+					in := &c04In{Tag: "same-signature-other-claim", Inbound: inbound, Level: level, LocalRole: lr, OwnAddr: hx(ownAddr),
+						OwnRole: hx([]byte(ownRole)), OwnToken: hx([]byte("token-local")), OwnSig: hx(sign(w.localKey, ownRole+"token-local")),
+						Registered: true, Remote: remote, WriteFail: -1, Prims: []c04Verify{},
+						Prior: []c04Frame{genuine, echo(lr, "right")}, PriorRegistered: true}
+					s := hx(remAddr)
+					in.PeerAddr = &s
+					sg, _ := hex.DecodeString(rq.Sig)
+					in.Prims = append(in.Prims, c04Prim(sg, []byte(claim[0]+claim[1])))
+					if blockCells && level != "caller" {
+						continue
+					}
+					out.emitAs("C04", in, c04Run(t, in, w, false))
 				}
 			}
 		}
@@ -793,6 +830,15 @@ func c04Generate(t *testing.T, out *vout, blockCells bool) {
 				emit("write-fails", inbound, level, 1, false, true, ok, wf)
 			}
 			emit("ed25519-identity", inbound, level, 1, true, true, ok, -1)
+			for _, sc := range []string{"foreign", "flipped", "short", "other-message"} {
+				for _, role := range []string{"bidder", "provider"} {
+					bad := []c04Frame{reqFrame(role, "tok", sc), echo(1, "right")}
+					if !inbound {
+						bad = []c04Frame{echo(1, "right"), reqFrame(role, "tok", sc)}
+					}
+					emit("ed25519-identity-bad-signature", inbound, level, 1, true, true, bad, -1)
+				}
+			}
 			for _, b := range []string{"garbage", "errframe", "emptyframe", "eof"} {
 				emit("bad-first-frame", inbound, level, 1, false, true, []c04Frame{{T: "bad", Bad: b}, ok[1]}, -1)
 			}
